@@ -40,7 +40,9 @@ SPEC = dict(
         dict(name='mgr', harness='h_mgr.cpp', tus=['src/base/QXmppDataForm.cpp', 'src/base/QXmppDiscoveryIq.cpp', 'src/base/QXmppIq.cpp', 'src/base/QXmppStanza.cpp', 'src/client/QXmppClient.cpp'],
              models=MODELS + ['c20_mgr_models.c'], cxxdefs={}, loop_bounds={}, instances=[
             # n = (identities, features) of the arbitrary info set returned by the cut capabilities()
-            I('handle_info_1_2', 'h_handle_info', (1, 2), bound='info set with 1 identity and 2 features; query node and capabilities node 0..2 units'),
+            I('handle_info_nonode', 'h_handle_info', (1, 2, 0), bound='info set with 1 identity and 2 features; query without node'),
+            I('handle_info_prefix', 'h_handle_info', (1, 2, 1), bound='info set with 1 identity and 2 features; node "abB" under capabilities node "ab"'),
+            I('handle_info_foreign', 'h_handle_info', (1, 2, 3), bound='node "ba" under capabilities node "ab": refused'),
             I('presence_caps_1_2', 'h_presence_caps', (1, 2), bound='info set with 1 identity and 2 features'),
         ]),
     ],
